@@ -447,19 +447,44 @@ use super::*;
 impl SerT for Config { uninterp spec fn ser(self) -> Seq<u8>; uninterp spec fn de(b: Seq<u8>) -> Option<Self>; }
 @const contracts/cw20-ics20/src/migrations.rs v1::CONFIG
 } // mod v1
-/// what the (assumed) v2 -> v3 reconciliation establishes between the storage before and after it; its meaning is not modelled,
-/// the relation only records THAT the reconciliation ran on a given pre-state
-pub uninterp spec fn reconciled(s: Raw, t: Raw, env: Env) -> bool;
+/// every key outside the per-channel balances is untouched
+pub open spec fn same_outside_channel_state(s: Raw, t: Raw) -> bool {
+    forall|k: Seq<u8>| unpath(k).0 != "channel_state"@ ==> #[trigger] s.contains_key(k) == t.contains_key(k) && (s.contains_key(k) ==> s[k] == t[k])
+}
+/// what the v2 -> v3 reconciliation is on a given pre-state: it refuses a contract with more than one channel, and it changes
+/// nothing but per-channel balances (their new values come from the assumed leaf `update_denom`: the contract's real holdings)
+pub open spec fn reconciled(s: Raw, t: Raw, env: Env) -> bool {
+    listing(s, "channel_info"@, Seq::<u8>::empty(), false).len() <= 1 && same_outside_channel_state(s, t)
+}
 pub mod v2 {
 use super::*;
-// ASSUMED LEAF (range scans + bank / cw20 balance queries): reconciles channel balances with the contract's actual holdings;
-// only `channel_state` entries may change
-@fn contracts/cw20-ics20/src/migrations.rs v2::update_balances [assume; id: v2_update_balances]
-@ensures C12.update_balances_frame C18
-    forall|k: Seq<u8>| unpath(k).0 != "channel_state"@ ==> #[trigger] old(deps.storage).view().contains_key(k) == final(deps.storage).view().contains_key(k)
-        && (old(deps.storage).view().contains_key(k) ==> old(deps.storage).view()[k] == final(deps.storage).view()[k])
+// ASSUMED LEAF (bank / cw20 balance queries through the querier): sets the outstanding balance of one (channel, denom) entry to
+// the contract's actual holdings; only that entry may change
+@fn contracts/cw20-ics20/src/migrations.rs v2::update_denom [assume; id: v2_update_denom]
+@ensures C12.update_denom_frame C11 C18
+    same_outside_channel_state(old(deps.storage).view(), final(deps.storage).view())
+@end
+@fn contracts/cw20-ics20/src/migrations.rs v2::update_balances [loops: 1; id: v2_update_balances]
+@ensures C12.update_balances_frame C18 C11
+    r is Ok ==> same_outside_channel_state(old(deps.storage).view(), final(deps.storage).view())
 @ensures C12.update_balances_reconciles C11
     r is Ok ==> reconciled(old(deps.storage).view(), final(deps.storage).view(), *env)
+@loop 1 C12.update_balances_loop
+    invariant
+        same_outside_channel_state(s0, deps.storage.view()),
+        final(deps.storage).view() == fin0,
+@prefix
+    broadcast use ics_axioms;
+    let ghost s0 = deps.storage.view();
+    let ghost fin0 = final(deps.storage).view();
+    proof { lemma_ns6(); }
+@insert_before "match channels.len()" 1
+    proof {
+        let l = listing(s0, "channel_info"@, Seq::<u8>::empty(), false);
+        lemma_keep_all(l, |e: Entry| within(e.0, None, None));
+        assert(scan(l, None, None, Order::Ascending) == l);
+        assert(channels@.len() == l.len());
+    }
 @end
 } // mod v2
 pub use semver::Version;
@@ -471,24 +496,49 @@ pub use semver::Version;
 @fn contracts/cw20-ics20/src/contract.rs from_semver
 @end
 
+/// entry j of the initial allow list is not overwritten by a later entry (before position n) for the same contract
+pub open spec fn no_later_entry(al: Seq<AllowMsg>, j: int, n: int) -> bool {
+    forall|k: int| j < k < n ==> (#[trigger] al[k]).contract@ != al[j].contract@
+}
 @fn contracts/cw20-ics20/src/contract.rs instantiate [loops: 1]
 @requires
     old(deps.storage).view() == SMap::<Seq<u8>, Seq<u8>>::empty()
 @ensures C18.instantiate_admin_and_config
     r is Ok ==> is_admin_addr(final(deps.storage).view(), "admin"@, msg.gov_contract@)
         && config_of(final(deps.storage).view()) == Some(Config { default_timeout: msg.default_timeout, default_gas_limit: msg.default_gas_limit })
+@ensures C18.instantiate_allow_list_as_given
+    r is Ok ==> forall|j: int| 0 <= j < msg.allowlist@.len() && no_later_entry(msg.allowlist@, j, msg.allowlist@.len() as int)
+        ==> allow_of(final(deps.storage).view(), (#[trigger] msg.allowlist@[j]).contract@) == Some(AllowInfo { gas_limit: msg.allowlist@[j].gas_limit })
 @loop 1 C18.instantiate_loop
     invariant
+        it.index@ <= msg.allowlist@.len(),
         is_admin_addr(deps.storage.view(), "admin"@, msg.gov_contract@),
         config_of(deps.storage.view()) == Some(cfg),
+        forall|j: int| 0 <= j < it.index@ && no_later_entry(msg.allowlist@, j, it.index@ as int)
+            ==> allow_of(deps.storage.view(), (#[trigger] msg.allowlist@[j]).contract@) == Some(AllowInfo { gas_limit: msg.allowlist@[j].gas_limit }),
 @prefix
     broadcast use ics_axioms;
     proof { lemma_ns6(); }
+@loop_begin 1
+    let ghost pre = deps.storage.view();
+    let ghost idx = it.index@ as int;
+    let ghost al0 = allowed;
 @loop_end 1
     proof {
         broadcast use ics_axioms;
         lemma_ns6();
         assert(unpath(allow_key(contract@)) != unpath(item_key("admin"@)) && unpath(allow_key(contract@)) != unpath(item_key("ics20_config"@)));
+        let post = deps.storage.view();
+        assert(al0 == msg.allowlist@[idx]);
+        assert forall|j: int| 0 <= j < idx + 1 && no_later_entry(msg.allowlist@, j, idx + 1)
+            implies allow_of(post, (#[trigger] msg.allowlist@[j]).contract@) == Some(AllowInfo { gas_limit: msg.allowlist@[j].gas_limit }) by {
+            if j < idx {
+                assert(msg.allowlist@[idx].contract@ != msg.allowlist@[j].contract@);
+                assert(no_later_entry(msg.allowlist@, j, idx));
+                assert(unutf8(utf8(msg.allowlist@[j].contract@)) != unutf8(utf8(contract@)));
+                assert(unpath(allow_key(msg.allowlist@[j].contract@)) != unpath(allow_key(contract@)));
+            }
+        }
     }
 @end
 
